@@ -699,3 +699,52 @@ def call_keywords(func_node: ast.AST, call: ast.Call) -> typing.Dict[str, ast.AS
                         and n.targets[0].value.id == k.value.id and isinstance(n.targets[0].slice, ast.Constant) and isinstance(n.targets[0].slice.value, str):
                     out.setdefault(n.targets[0].slice.value, n.value)
     return out
+
+
+def subst_locals(func_node: ast.AST, expr: ast.AST, depth: int = 3) -> ast.AST:
+    """copy of `expr` with every local that is assigned exactly once in the function (a plain `name = <expr>` statement, not a
+    loop/with target, not augmented) replaced by the expression it was assigned - hoisting a sub-expression into a named local
+    then makes no difference to a rule that compares expressions"""
+    import copy
+    counts: typing.Dict[str, int] = {}
+    vals: typing.Dict[str, ast.AST] = {}
+    params = set()
+    if isinstance(func_node, (ast.FunctionDef, ast.AsyncFunctionDef)):
+        a = func_node.args
+        params = {x.arg for x in a.posonlyargs + a.args + a.kwonlyargs} | ({a.vararg.arg} if a.vararg else set()) | ({a.kwarg.arg} if a.kwarg else set())
+    for n in ast.walk(func_node):
+        if isinstance(n, ast.Assign):
+            for t in n.targets:
+                for x in ast.walk(t):
+                    if isinstance(x, ast.Name):
+                        counts[x.id] = counts.get(x.id, 0) + 1
+                        if isinstance(t, ast.Name) and len(n.targets) == 1:
+                            vals[x.id] = n.value
+        elif isinstance(n, (ast.AugAssign, ast.AnnAssign)) and isinstance(n.target, ast.Name):
+            counts[n.target.id] = counts.get(n.target.id, 0) + (1 if isinstance(n, ast.AnnAssign) and n.value is not None else 2)
+            if isinstance(n, ast.AnnAssign) and n.value is not None:
+                vals[n.target.id] = n.value
+        elif isinstance(n, (ast.For, ast.AsyncFor, ast.comprehension)):
+            for x in ast.walk(n.target):
+                if isinstance(x, ast.Name):
+                    counts[x.id] = counts.get(x.id, 0) + 2
+        elif isinstance(n, (ast.With, ast.AsyncWith)):
+            for it in n.items:
+                if it.optional_vars is not None:
+                    for x in ast.walk(it.optional_vars):
+                        if isinstance(x, ast.Name):
+                            counts[x.id] = counts.get(x.id, 0) + 2
+    single = {k: v for k, v in vals.items() if counts.get(k) == 1 and k not in params}
+
+    class _S(ast.NodeTransformer):
+        def visit_Name(self, node):
+            if isinstance(node.ctx, ast.Load) and node.id in single:
+                return copy.deepcopy(single[node.id])
+            return node
+
+    out = copy.deepcopy(expr)
+    for _ in range(depth):
+        out = _S().visit(out)
+        if isinstance(out, ast.Name) and isinstance(out.ctx, ast.Load) and out.id in single:
+            out = copy.deepcopy(single[out.id])
+    return ast.fix_missing_locations(out)
